@@ -17,7 +17,10 @@ ASSUMPTIONS = ["declared names are lower-cased by fparser; USE'd modules are rec
                "relax the arity check)"]
 TIE_MODULES = ["FparserModel.SymTab", "FparserModel.Generated.Intrinsics", "FparserModel.Block"]
 
-INTR = ["sin", "cos", "abs", "sqrt", "exp", "tan", "nint", "len", "size", "real"]
+# generic names and specific names of the same intrinsics (a declaration of `abs` must not
+# affect `iabs`, nor the other way round)
+INTR = ["sin", "cos", "abs", "sqrt", "exp", "tan", "nint", "len", "size", "real",
+        "dsin", "alog", "iabs", "dabs", "dsqrt", "dcos", "log", "dexp"]
 
 
 class Scope:
